@@ -21,6 +21,7 @@ ASSUMPTIONS = ["np.random.choice over range(n) with p=None is uniform and raises
 
 
 def run(ck, an, tier):
+    steps_recomputed(ck, an)
     from rules import C10 as _c10
     from sa.report import Renamed as _R10
     _c10.s2(_R10(ck, "C10:"), an)      # the start of a sampled episode is drawn from the process-wide numpy stream: nothing in the package may re-seed or consume it on the way
@@ -72,6 +73,17 @@ def _reset_regimes(ck, an, regimes):
         ck.check(got is not None and got in wants, "LIN", name, subj, fa.f.loc, what,
                  f"the episode's steps are {str(got)[:400]}; specified {str(wants[0])[:400]}", construct="self._steps = steps",
                  witness=[f"got       {got}", f"specified {wants[0]}"])
+
+
+def steps_recomputed(ck, an):
+    """Every way out of Transmitter._reset (other than raising) stores the episode's steps: nothing of the previous episode's
+    window (e.g. one cut by an episode length) survives a reset."""
+    fa = an.fa("Transmitter._reset")
+    st = [s_ for s_ in assigns_to_attr(fa, "_steps")]
+    nodes = {fa.node_of(s_).id for s_ in st if fa.node_of(s_) is not None}
+    ck.check(bool(nodes) and fa.cfg.every_path_from_passes(fa.cfg.entry.id, nodes), "RESET", "S1.steps-recomputed-at-every-reset", fa.f.short, fa.f.loc,
+             "every reset recomputes the episode's steps from the fold (no path returns with the previous episode's steps)",
+             "Transmitter._reset can return without re-assigning _steps: the next episode runs over the previous episode's window", construct="self._steps = steps")
 
 
 def s1(ck, an):
